@@ -261,33 +261,50 @@ func (s *c03Sim) drop(k int) {
 
 // finalOracle: every node that could know the keys stores exactly the reference keys.
 func (s *c03Sim) finalOracle(triggered map[int][]int) {
+	// an identity may be part of several requests
+	setsOf := map[string][]int{}
+	var ids [][]byte
 	for si, set := range s.Sets {
-		T := len(triggered[si])
-		for ni, n := range s.Nodes {
-			rows := n.DB.Srv.Rows("decryption_key")
-			have := map[string][]byte{}
-			for _, r := range rows {
-				if r["eon"] == int64(c03CfgIdx) {
-					have[string(r["epoch_id"].([]byte))] = r["decryption_key"].([]byte)
+		for _, id := range set {
+			if len(setsOf[string(id)]) == 0 {
+				ids = append(ids, id)
+			}
+			setsOf[string(id)] = append(setsOf[string(id)], si)
+		}
+	}
+	for ni, n := range s.Nodes {
+		rows := n.DB.Srv.Rows("decryption_key")
+		have := map[string][]byte{}
+		for _, r := range rows {
+			if r["eon"] == int64(c03CfgIdx) {
+				have[string(r["epoch_id"].([]byte))] = r["decryption_key"].([]byte)
+			}
+		}
+		for _, id := range ids {
+			ref, err := s.Fix.Real.EpochSecretKey(identitypreimage.IdentityPreimage(id))
+			if err != nil {
+				panic(err)
+			}
+			got, ok := have[string(id)]
+			if ok && !bytes.Equal(got, ref.Marshal()) {
+				s.fail("wrong-key-stored", "node %d stores a key for identity %x (sets %v) that differs from the eon's key\nhistory: %s", ni, id[:4], setsOf[string(id)], s.history())
+			}
+			// the statement speaks about keypers that receive the triggered keypers' messages
+			mustHave, senders := false, map[int]bool{}
+			for _, si := range setsOf[string(id)] {
+				T := len(triggered[si])
+				if T >= s.T && s.gotAny[ni][si] && (len(s.gotShares[ni][si]) >= s.T || s.gotKeys[ni][si]) {
+					mustHave = true
+				}
+				for _, k := range triggered[si] {
+					senders[k] = true
 				}
 			}
-			for _, id := range set {
-				ref, err := s.Fix.Real.EpochSecretKey(identitypreimage.IdentityPreimage(id))
-				if err != nil {
-					panic(err)
-				}
-				got, ok := have[string(id)]
-				if ok && !bytes.Equal(got, ref.Marshal()) {
-					s.fail("wrong-key-stored", "node %d stores a key for identity %x (set %d) that differs from the eon's key\nhistory: %s", ni, id[:4], si, s.history())
-				}
-				// the statement speaks about keypers that receive the triggered keypers' messages
-				mustHave := T >= s.T && s.gotAny[ni][si] && (len(s.gotShares[ni][si]) >= s.T || s.gotKeys[ni][si])
-				if mustHave && !ok {
-					s.fail("key-missing-at-quiescence", "node %d has no key for identity %x (set %d) at quiescence although %d >= t=%d keypers were triggered and at most %d share messages were lost per receiver\nhistory: %s", ni, id[:4], si, T, s.T, s.Budget, s.history())
-				}
-				if T < s.T && ok {
-					s.fail("key-from-fewer-than-t", "node %d has a key for set %d although only %d < t=%d keypers were triggered\nhistory: %s", ni, si, T, s.T, s.history())
-				}
+			if mustHave && !ok {
+				s.fail("key-missing-at-quiescence", "node %d has no key for identity %x (sets %v) at quiescence although >= t=%d keypers were triggered for it and at most %d share messages were lost per receiver\nhistory: %s", ni, id[:4], setsOf[string(id)], s.T, s.Budget, s.history())
+			}
+			if len(senders) < s.T && ok {
+				s.fail("key-from-fewer-than-t", "node %d has a key for identity %x although only %d < t=%d keypers were triggered for it\nhistory: %s", ni, id[:4], len(senders), s.T, s.history())
 			}
 		}
 	}
@@ -316,7 +333,37 @@ func genIdentitySets(rt *rapid.T, fl flavour) [][][]byte {
 		sort.Slice(set, func(i, j int) bool { return bytes.Compare(set[i], set[j]) < 0 })
 		sets = append(sets, set)
 	}
+	if len(sets) == 2 && len(sets[0]) >= 2 && rapid.IntRange(0, 1).Draw(rt, "overlap") == 0 {
+		// (neither request is a subset of the other, so a keyper asked for both answers both and a node
+		// completes each request exactly when it holds t share messages of that request)
+		// the second request repeats an identity of the first one (a keyper is asked again before the first
+		// keys are known) between identities of its own: [new, shared, own...]
+		first := bytes.Repeat([]byte{0x3f}, fl.identityLen())
+		shared := sets[0][len(sets[0])-1]
+		set := append([][]byte{first, shared}, sets[1]...)
+		sort.Slice(set, func(i, j int) bool { return bytes.Compare(set[i], set[j]) < 0 })
+		if len(set) > 3 {
+			set = set[:3]
+			if !bytes.Equal(set[1], shared) {
+				panic("harness: overlap construction")
+			}
+		}
+		sets[1] = set
+	}
 	return sets
+}
+
+func setsOverlap(sets [][][]byte) bool {
+	seen := map[string]bool{}
+	for _, set := range sets {
+		for _, id := range set {
+			if seen[string(id)] {
+				return true
+			}
+			seen[string(id)] = true
+		}
+	}
+	return false
 }
 
 func runC03Schedule(rt *rapid.T, rec *Recorder, fl flavour) {
@@ -330,7 +377,7 @@ func runC03Schedule(rt *rapid.T, rec *Recorder, fl flavour) {
 	minT := n
 	for si := range sets {
 		cnt := rapid.IntRange(th, n).Draw(rt, fmt.Sprintf("ntrig%d", si))
-		if rapid.IntRange(0, 9).Draw(rt, fmt.Sprintf("fewTrig%d", si)) == 0 && th > 1 {
+		if rapid.IntRange(0, 9).Draw(rt, fmt.Sprintf("fewTrig%d", si)) == 0 && th > 1 && !setsOverlap(sets) {
 			cnt = th - 1 // too few: nobody may derive a key
 		}
 		perm := rapid.Permutation(seq(n)).Draw(rt, fmt.Sprintf("trigPerm%d", si))
@@ -393,6 +440,9 @@ func runC03Schedule(rt *rapid.T, rec *Recorder, fl flavour) {
 	labels := []string{"flavour:" + string(fl), fmt.Sprintf("n=%d", n)}
 	if sim.Lossy {
 		labels = append(labels, "with-loss")
+	}
+	if setsOverlap(sets) {
+		labels = append(labels, "requests-share-an-identity")
 	}
 	if dups > 0 {
 		labels = append(labels, "with-duplicates")
